@@ -174,8 +174,16 @@ static carquet_status_t writer_fail(carquet_writer_t* writer, carquet_status_t s
     return status;
 }
 
+/* The count returned by fwrite is not the whole story: when a line-buffered
+ * stream flushes from inside fwrite and the flush fails, the C library drops
+ * the buffered bytes, sets the stream's error indicator and still returns the
+ * full count. */
+static bool write_fully(FILE* file, const void* data, size_t size) {
+    return fwrite(data, 1, size, file) == size && !ferror(file);
+}
+
 static carquet_status_t write_magic(FILE* file) {
-    if (fwrite(PARQUET_MAGIC, 1, 4, file) != 4) {
+    if (!write_fully(file, PARQUET_MAGIC, 4)) {
         return CARQUET_ERROR_FILE_WRITE;
     }
     return CARQUET_OK;
@@ -308,7 +316,7 @@ static carquet_status_t flush_row_group(carquet_writer_t* writer) {
 
     /* Write row group data to file */
     if (size > 0) {
-        if (fwrite(data, 1, size, writer->file) != size) {
+        if (!write_fully(writer->file, data, size)) {
             return CARQUET_ERROR_FILE_WRITE;
         }
     }
@@ -718,7 +726,7 @@ carquet_status_t carquet_writer_close(carquet_writer_t* writer) {
     }
 
     /* Write metadata */
-    if (fwrite(metadata_buffer.data, 1, metadata_buffer.size, writer->file) != metadata_buffer.size) {
+    if (!write_fully(writer->file, metadata_buffer.data, metadata_buffer.size)) {
         carquet_buffer_destroy(&metadata_buffer);
         status = CARQUET_ERROR_FILE_WRITE;
         goto cleanup;
@@ -732,7 +740,7 @@ carquet_status_t carquet_writer_close(carquet_writer_t* writer) {
     len_bytes[2] = (uint8_t)((metadata_len >> 16) & 0xFF);
     len_bytes[3] = (uint8_t)((metadata_len >> 24) & 0xFF);
 
-    if (fwrite(len_bytes, 1, 4, writer->file) != 4) {
+    if (!write_fully(writer->file, len_bytes, 4)) {
         carquet_buffer_destroy(&metadata_buffer);
         status = CARQUET_ERROR_FILE_WRITE;
         goto cleanup;
@@ -748,7 +756,7 @@ carquet_status_t carquet_writer_close(carquet_writer_t* writer) {
 
     /* Flush: with a buffered stream this is where a full disk or an I/O
      * error on the data written so far is finally reported. */
-    if (fflush(writer->file) != 0) {
+    if (fflush(writer->file) != 0 || ferror(writer->file)) {
         status = CARQUET_ERROR_FILE_WRITE;
     }
 
